@@ -1,2 +1,38 @@
-(* C14 -- theorems are being added *)
-From ZK Require Import Cl.
+(* C14 -- CL03 blind issuance.  Proved: gating (blind_sign returns only if verify_proof returned true; otherwise the Rust
+   code panics = refusal), the unblinded signature's components, and completeness of the two-secret sigma protocol that
+   carries each hidden attribute and the commitment randomness.  Completeness of the whole issuance flow for every hidden
+   set, and rejection of mismatching / edited proofs: correspondence + sweep (all non-empty U for n <= 3 / 5). *)
+From ZK Require Import Cl ClArith ClSig ClMore.
+
+Theorem C14_cl_blind_sign_gated :
+  forall CS BP pk sk bases zk revealed C Ct ck U ridx ds b ds',
+  blind_sign CS BP pk sk bases zk revealed C Ct ck U ridx ds = Ok (b, ds') ->
+  zkpok_verify CS BP zk C Ct pk bases ck U = Ok true.
+Proof. exact cl_blind_sign_gated. Qed.
+Check (C14_cl_blind_sign_gated :
+  forall CS BP pk sk bases zk revealed C Ct ck U ridx ds b ds',
+  blind_sign CS BP pk sk bases zk revealed C Ct ck U ridx ds = Ok (b, ds') ->
+  zkpok_verify CS BP zk C Ct pk bases ck U = Ok true).
+Print Assumptions C14_cl_blind_sign_gated.
+
+Theorem C14_unblind_sign_s :
+  forall b C, s_s (unblind_sign b C) = (c_rand C + bs_rprime b)%Z /\ s_e (unblind_sign b C) = bs_e b /\ s_v (unblind_sign b C) = bs_v b.
+Proof. exact unblind_sign_s. Qed.
+Check (C14_unblind_sign_s :
+  forall b C, s_s (unblind_sign b C) = (c_rand C + bs_rprime b)%Z /\ s_e (unblind_sign b C) = bs_e b /\ s_v (unblind_sign b C) = bs_v b).
+Print Assumptions C14_unblind_sign_s.
+
+Theorem C14_nisp2sec_complete :
+  forall CS m c g h n ds p ds',
+  (0 < n)%Z -> (0 <= m)%Z -> (0 <= c_rand c)%Z -> c_value c = ((g ^ m * h ^ c_rand c) mod n)%Z ->
+  Forall (fun d => (0 <= d_val d)%Z) ds ->
+  nisp2sec_gen CS m c g h n ds = Ok (p, ds') ->
+  nisp2sec_verify p c g h n = Ok true.
+Proof. exact nisp2sec_complete. Qed.
+Check (C14_nisp2sec_complete :
+  forall CS m c g h n ds p ds',
+  (0 < n)%Z -> (0 <= m)%Z -> (0 <= c_rand c)%Z -> c_value c = ((g ^ m * h ^ c_rand c) mod n)%Z ->
+  Forall (fun d => (0 <= d_val d)%Z) ds ->
+  nisp2sec_gen CS m c g h n ds = Ok (p, ds') ->
+  nisp2sec_verify p c g h n = Ok true).
+Print Assumptions C14_nisp2sec_complete.
